@@ -10,11 +10,12 @@ ASSUMPTIONS = [
     'suspend/resume follow the agent contract of Base/Agent.v (a resume aimed at a running task leaves a token consumed by the next suspension of that phase; any spurious return of a suspension is allowed)',
     'one critical section of the per-thread_data spinlock / of thread::mtx_ is one atomic step; exit_funcs_.front() read outside the lock is an atomic read of the list head; sequentially consistent interleaving',
     'a pika::thread object is operated by one task at a time (handles are owned); concurrent join() on the same object is outside the model',
-    'thread_interrupted is not caught by the thread function (it ends the thread); restart state `abort` and yield_aborted are not modelled',
+    'thread_interrupted either ends the thread function or is caught by a handler after which the program continues (ACatch); restart state `abort` and yield_aborted are not modelled',
+    'the completion flag of a join() call is identified by (joiner, target, number of the registration); shared_ptr / thread_id_ref lifetimes are not modelled (read: the callback owns a copy of both)',
 ]
 
-N = {'quick': dict(seq=1000, race=4000, f13=2000, jthr=600, intr=300),
-     'thorough': dict(seq=6000, race=30000, f13=12000, jthr=4000, intr=2000)}
+N = {'quick': dict(seq=1000, race=4000, f13=2000, jthr=600, intr=300, rejoin=300),
+     'thorough': dict(seq=6000, race=30000, f13=12000, jthr=4000, intr=2000, rejoin=3000)}
 
 
 def kv(line):
@@ -69,6 +70,26 @@ def run_mode(ctx, r, h, drv, mode, seed, n, timeout):
                                   'join returned although neither its exit callback had been invoked nor the callbacks were marked as run: %s' % x, dict(rep, case=x)))
             if f.get('joinable_after') == '1':
                 r.hits.append(Hit('monitor', 'C13:join:still_joinable', 'handle joinable after join(): %s' % x, dict(rep, case=x)))
+        elif p[1] == 'REJOIN':
+            # join again after thread_interrupted left an earlier join() of the same handle
+            var = f.get('var')
+            r.count('rejoin:var=%s:adds=%s:refused=%s' % (var, f.get('adds'), f.get('refused')))
+            if f.get('setup') != '111':
+                r.notes.append('rejoin case not set up as intended (inconclusive, not judged): %s' % x)
+                continue
+            if f.get('caught') != '0' and f.get('adds') == '2':
+                r.nontrivial('rejoin:%d:%s' % (seed, p[2]))
+            if f.get('returned') != '1':
+                r.hits.append(Hit('monitor', 'C13:rejoin:hang_after_interrupt',
+                                  'a joiner was interrupted inside t.join() (thread_interrupted left join, t still joinable), caught it and called t.join() again; '
+                                  'the second join did not return within 3 s although the target finished and ran its exit callbacks '
+                                  '(var=0: the second registration was made while the target stood between invoking a callback and removing it from the list; '
+                                  'Coq witness C13_rejoin_unfixed_hangs): %s' % x, dict(rep, case=x)))
+            elif f.get('early') != '0':
+                r.hits.append(Hit('monitor', 'C13:rejoin:early_return',
+                                  'the repeated join() returned before the thread function finished: %s' % x, dict(rep, case=x)))
+            elif f.get('joinable_after') != '0':
+                r.hits.append(Hit('monitor', 'C13:rejoin:still_joinable', 'handle joinable after the repeated join(): %s' % x, dict(rep, case=x)))
         elif p[1] == 'JTHR':
             r.count('jthr:variant=%s' % f.get('variant'))
             r.nontrivial('jthr:%d:%s' % (seed, p[2]))
@@ -163,7 +184,9 @@ def run(ctx):
               'race/f13: generated bodies (immediate/yielding/long/blocking/spawning), joiner on another task, seeded busy-delays at hook sites '
               '1301/1302/1305/1311/1312/1313; the per-task event sequences (add accepted/refused, flag reads, wake-ups, callback call/pop/ran) '
               'must be an execution of the model (acceptor); f13: the joiner just left a notified timed wait; jthr: ~jthread; intr: interruption '
-              'scenarios. non-trivial = callback accepted (join had to wait) or any seq/jthr/intr case; distinct = distinct (mode,seed,case,events)')
+              'scenarios; rejoin: a joiner interrupted inside join() catches thread_interrupted and joins again (variant 0: second registration '
+              'forced between the target\'s callback invocation and its removal from the list by hand-shakes in the hooks; 1: before the target exits; '
+              '2: free running with seeded delays). non-trivial = callback accepted (join had to wait) or any seq/jthr/intr case; distinct = distinct (mode,seed,case,events)')
     ctx.build_pika()
     drv = ctx.build_model('C13', 'ExtractC13.v', 'drv_c13.ml')
     h = ctx.build_harness('c13_join', 'c13_join.cpp')
@@ -179,12 +202,10 @@ def run(ctx):
     to = 400 if ctx.tier == 'quick' else 2400
     seeds = [ctx.seed] if ctx.tier == 'quick' else [ctx.seed, ctx.seed + 1000]
     for sd in seeds:
-        for mode in ('seq', 'race', 'f13', 'jthr', 'intr'):
+        for mode in ('seq', 'race', 'f13', 'jthr', 'intr', 'rejoin'):
             run_mode(ctx, r, h, drv, mode, sd, n[mode], to)
     run_mode(ctx, r, h, drv, 'intry', ctx.seed, 1, 60)
-    r.notes.append('E4 (run_thread_exit_callbacks pops the front after invoking it unlocked: a callback pushed meanwhile is dropped and the '
-                   'invoked one runs twice) needs two callbacks on one thread: detail API, or two tasks joining the same pika::thread object '
-                   'concurrently, or a joiner that catches thread_interrupted inside join and joins again — outside the property, not checked')
-    r.notes.append('join_returns (progress) is not proved in Coq; covered at run time by the watchdog (every join/destructor returns within 30 s) '
-                   'and by the model Examples for the three orders')
+    r.notes.append('E4 (run_thread_exit_callbacks popped the front after invoking it unlocked: a callback pushed meanwhile was dropped and the '
+                   'invoked one ran twice) is repaired (callback moved out of the list under the lock); reachable through the public API by a joiner that '
+                   'catches thread_interrupted inside join() and joins again: mode rejoin replays the Coq witness (variant 0) on every run')
     return r
